@@ -208,9 +208,16 @@ def python_part(spec, ctx):
                     rd = sorted(m["sensors"][key])
                     hr = oracle.ref_jac({r: m["sensors"][key][r] for r in rd}, st_, env)
                     c03.check_matrix(ctx, spec, f"sensor_jacobian:cse={tag}", res[tag][f"H:{key}"], rd, st_, hr, (len(rd), len(st_)))
+            well = oracle.amplification(m, p) <= 1e8
+            if not well:
+                ctx.event("ill_conditioned_point(direct_on_off_comparison_skipped)")
             for name in res["on"]:
                 a, b = res["on"][name], res["off"][name]
-                if a.shape != b.shape or np.max(np.abs(a - b), initial=0.0) > 1e-7 * max(1.0, float(np.max(np.abs(a), initial=0.0))):
+                if a.shape != b.shape or not well:
+                    if a.shape != b.shape:
+                        ctx.fail("python:cse-on-vs-off", f"{name}: shapes {a.shape} vs {b.shape}", spec)
+                    continue
+                if np.max(np.abs(a - b), initial=0.0) > 1e-7 * max(1.0, float(np.max(np.abs(a), initial=0.0))):
                     ctx.fail("python:cse-on-vs-off", f"{name}: on {a.ravel()} off {b.ravel()}", spec)
     up = spec["update"]
     outs = {}
@@ -221,7 +228,7 @@ def python_part(spec, ctx):
                                sensor_reading=f.make_reading(up["key"], **up["z"]))
             outs[tag] = (np.asarray(o.state.data, float), np.asarray(o.covariance.data, float))
     for a, b in zip(outs["on"], outs["off"]):
-        if np.max(np.abs(a - b)) > 1e-7 * max(1.0, float(np.max(np.abs(a)))):
+        if oracle.amplification(m, up["point"]) <= 1e8 and np.max(np.abs(a - b)) > 1e-7 * max(1.0, float(np.max(np.abs(a)))):
             ctx.fail("python:cse-on-vs-off", f"sensor update: on {a.ravel()} off {b.ravel()}", spec)
     return ntemps, nested
 
@@ -246,7 +253,11 @@ def cpp_part(spec, ctx):
         ctx.fail("cpp:ssa", "\n".join(problems[:10]), spec)
     if pre_on["idx"] != pre_off["idx"]:
         ctx.fail("cpp:layout-differs-with-cse", f"{pre_on['idx']} vs {pre_off['idx']}", spec)
-    for ca, cb in zip(cs_on, cs_off):
+    pts_ = [x["point"] for x in spec["process"]] + [up["point"]]
+    for (ca, cb), pt_ in zip(zip(cs_on, cs_off), pts_):
+        if oracle.amplification(m, pt_) > 1e8:
+            ctx.event("ill_conditioned_point(direct_on_off_comparison_skipped)")
+            continue
         for tag in ca:
             if not isinstance(ca[tag], dict):
                 if ca[tag] != cb.get(tag):
